@@ -195,6 +195,9 @@ def r06_s(ctx):
     ctx.include(c05.r05_11, 'R06.S')
     from . import c08
     ctx.include(c08.r08_5, 'R06.S')
+    ctx.include(c08.r08_1, 'R06.S')   # a float is written as ryu's shortest text of its own width (an integer shortcut loses the sign of -0.0)
+    from . import c03
+    ctx.include(c03.r03_7, 'R06.S')   # a raw-number literal becomes a RAWNUM node on both drivers (as a string node it is serialized quoted)
     from . import c16
     ctx.include(c16.r16_6, 'R06.S')   # raw-number text of a copied-out document lives in its arena, not in the caller's input: it is still there when the value is serialized  # a float keeps its value only if it is written by the writer of its own type
 
